@@ -30,6 +30,12 @@ def run(ctx):
     ctx.call(GR.validate_coverage, "3")
     ctx.call(GR.validate_table, "4")
     ctx.call(GR.shared_root, "5")
+    from ..kinds import signature_defaults
+
+    ctx.call(signature_defaults, "5d", {
+        "cartgraph/graph.py:TestGraph.parse_object_trees": {"with_shared_root": "True", "restriction": "''", "prefix": "''"},
+        "cartgraph/node.py:TestNode.get_terminal_object": {"key": "'object_root'"},
+    }, "complete graphs get their shared root by default")
     ctx.call(N.run_decision_table, "6r")
     ctx.call(N.clean_decision_table, "6c")
     ctx.call(GR.dependency_lookup, "7")
